@@ -146,6 +146,8 @@ type LemmaSpec struct {
 	Line     int
 }
 
+type ImmutableSpec struct{ Type, Field string }
+
 type GuardSpec struct {
 	Type   string // e.g. Map
 	Fields []string
@@ -158,6 +160,7 @@ type PkgSpec struct {
 	Funcs  map[string]*FuncSpec
 	Lemmas []*LemmaSpec
 	Guards []*GuardSpec
+	Immutable []ImmutableSpec // fields assigned only while their object is being constructed
 	Order  []string
 }
 
@@ -504,7 +507,7 @@ var clauseKW = map[string]bool{
 	"spec": true, "func": true, "lemma": true, "guarded": true,
 	"requires": true, "ensures": true, "modifies": true, "ghost": true, "loop": true,
 	"invariant": true, "decreases": true, "unfold": true, "inline": true, "trusted": true,
-	"pure": true, "atomic": true, "param": true, "induction": true, "havoc": true, "nopanic": true, "unroll": true, "known-finding": true, "apply": true, "assert": true, "witness": true, "cs-pure": true, "inline-call": true, "lockinv": true, "opaque-calls": true, "signal-channels": true, "callback": true,
+	"pure": true, "atomic": true, "param": true, "induction": true, "havoc": true, "nopanic": true, "unroll": true, "known-finding": true, "apply": true, "assert": true, "witness": true, "cs-pure": true, "inline-call": true, "lockinv": true, "opaque-calls": true, "signal-channels": true, "callback": true, "immutable": true,
 }
 
 type rawClause struct {
@@ -613,6 +616,13 @@ func ParseContractFile(path string, src []byte, ps *PkgSpec) error {
 			lm.Line = rc.line
 			ps.Lemmas = append(ps.Lemmas, lm)
 			curLemma = lm
+		case "immutable":
+			// immutable Conn.tokenHandlerContainer
+			a := strings.SplitN(strings.TrimSpace(rc.text), ".", 2)
+			if len(a) != 2 {
+				return fmt.Errorf("%s:%d: immutable T.f", path, rc.line)
+			}
+			ps.Immutable = append(ps.Immutable, ImmutableSpec{a[0], a[1]})
 		case "guarded":
 			// guarded Map.data by Map.mutex
 			parts := strings.Fields(rc.text)
